@@ -39,6 +39,8 @@ def families(tier):
                                         'plant_paths': ['o/d/z', 'o/d/e/z', 'o/z']}, 'weight': 1})
     q.append({'name': 'A4', 'params': {'hist': 'BB', 'kinds': ['is_dir'], 'roles': ['o'], 'targets': ['o/d/g'], 'modes': ['ok', 'raise_after'],
                                        'midplant': True, 'plant_paths': ['o/d/z', 'o/z', 'o/d/g/z']}, 'weight': 1})
+    q.append({'name': 'A11', 'params': {'hist': 'BB', 'kinds': ['is_dir', 'list_dir'], 'midplant': True, 'plant_dirs': True,
+                                        'plant_paths': ['o/d/r', 'o/d/z']}, 'weight': 1})
     q.append({'name': 'A5d', 'params': {'hist': 'BMB', 'kinds': ['is_dir'], 'modes': ['ok', 'raise_after'], 'mut_paths': ['o/z', 'o/d/z', 'o/d'],
                                         'mut_kinds': ['none', 'write', 'mkdir', 'file2dir']}, 'weight': 1})
     q.append({'name': 'A5c', 'params': {'hist': 'BMB', 'kinds': ['is_dir'], 'modes': ['ok', 'raise_after'], 'mut_paths': ['o/z', 'o/d/z', 'o/d'],
